@@ -260,6 +260,7 @@ type DB struct {
 
 	advisory map[int64]*advLock
 	advShared map[int64]map[*Session]*advShare // shared-mode holders (advshared.go)
+	advQueue  map[int64][]*Session             // FIFO of the sessions parked on an advisory key (advshared.go)
 	waiting  map[string]*waitErr // worker -> what its parked statement waits for
 	notes    []string // ORDER-DEPENDENT and similar diagnostics
 	skipped  []string // legacy migration statements skipped under the empty-tables rule
@@ -492,6 +493,7 @@ type Session struct {
 	closed     bool
 	worker     string
 	advSession map[int64]int
+	advWait    map[int64]bool // advisory keys the running statement is queued for (advshared.go)
 }
 
 func (db *DB) NewSession() *Session {
@@ -685,6 +687,7 @@ type waitErr struct {
 	on       *Session
 	what     string
 	blockTxn int64
+	waiter   *Session // advisory waits: who waits (to evaluate its place in the queue)
 }
 
 func (w *waitErr) Error() string { return "wait for session " + fmt.Sprint(w.on.id) + ": " + w.what }
@@ -747,12 +750,22 @@ func (db *DB) advisoryLock(s *Session, key int64, xactScoped bool) error {
 			delete(db.advisory, key)
 			l = nil
 		} else {
-			return &waitErr{on: l.sess, what: fmt.Sprintf("advisory lock %d", key)}
+			db.advEnqueue(s, key)
+			return &waitErr{on: l.sess, what: fmt.Sprintf("advisory lock %d", key), waiter: s}
 		}
 	}
 	if h := db.otherSharedHolder(s, key); h != nil {
-		return &waitErr{on: h, what: fmt.Sprintf("advisory lock %d", key)}
+		db.advEnqueue(s, key)
+		return &waitErr{on: h, what: fmt.Sprintf("advisory lock %d", key), waiter: s}
 	}
+	if l == nil {
+		if a := db.advAhead(s, key); a != nil {
+			// free right now, but an earlier waiter has not run again yet: queue behind it
+			db.advEnqueue(s, key)
+			return &waitErr{on: a, what: fmt.Sprintf("advisory lock %d", key), waiter: s}
+		}
+	}
+	db.advDequeue(s, key)
 	if l == nil {
 		l = &advLock{sess: s}
 		db.advisory[key] = l
